@@ -473,6 +473,13 @@ def check_index(ctx):
                 why = 'the value stored is not bounded by the size of %s on every path' % cont
             else:
                 why = 'the stored value is neither a constant, a validated decode, a copy of a carrier nor a bounded search result'
+                pv_ = peel(val)
+                from ..lock import is_internal as _ii
+                if pv_ is not None and pv_.get('kind') == 'CallExpr' and callee(pv_) and callee(pv_)[0] == 'fn' and callee(pv_)[1].get('_qn') and \
+                        any(t in G.defs and _ii(G.defs[t][1]) for t in G.resolve_decl(callee(pv_)[1])):
+                    ctx.unknown('C12-index', inst, x, 'the index is computed by a file-local helper (%s): how it is bounded by the size '
+                                'of %s is not followed' % (qn(callee(pv_)[1]), cont), construct='index:%s:%s' % (fname(k), tgt.get('name')))
+                    continue
             ctx.check(ok, 'C12-index', inst, x,
                       'a one-byte index is stored without being tied to the size of the container it later subscripts: %s' % why,
                       construct='index:%s:%s' % (fname(k), tgt.get('name')), detail=how)
@@ -756,12 +763,16 @@ def check_da_members(ctx):
         st.mem[('HDR', c)] = UNINIT
     res = ai.analyse(kb, st)
     acc = [(v, s) for (v, s) in res if isinstance(v, Int) and v.hi >= 1]
+    # (a count filled in through its address, say from a table of destinations, is not followed: no verdict for it)
+    addr_taken = set(peel(kids(y)[0]).get('name') for y in walk(f) if y.get('kind') == 'UnaryOperator' and y.get('opcode') == '&' and
+                     peel(kids(y)[0]) is not None and peel(kids(y)[0]).get('kind') == 'MemberExpr')
     for c in counts:
         ok = bool(acc) and all(isinstance(s.mem.get(('HDR', c)), Int) and s.mem[('HDR', c)].lo >= 0 for (v, s) in acc)
-        ctx.check(ok, 'C12-da', 'Header::Build true => %s assigned and non-negative' % c, f,
+        ctx.check3(None if (not ok and c in addr_taken) else ok, 'C12-da', 'Header::Build true => %s assigned and non-negative' % c, f,
                   'Header::Build can return true with %s unassigned or negative: DataLength and every loop bound derived '
                   'from it are indeterminate' % c, construct='da:header:%s' % c,
-                  detail=str([str(s.mem.get(('HDR', c))) for (v, s) in acc][:2]))
+                  detail=str([str(s.mem.get(('HDR', c))) for (v, s) in acc][:2]),
+                  unknown_why='%s is assigned through its address (&%s is taken in Header::Build): the stores are not followed' % (c, c))
     # (3) members of TimeZoneInfo
     members = ('default_transition_type_', 'extended_', 'last_year_')
 
